@@ -5,11 +5,11 @@
 From Coq Require Import String List NArith Bool.
 From J5V.lib Require Import Outcome Strcase.
 From J5V.model Require Entity.
-From J5V.model Require Import J5sEntity J5sRefSpec J5sAst Desc J5sWalk J5sLink J5sConvert J5sContract J5sSymbols J5sTypeNames J5sValid J5sCorr.
+From J5V.model Require Import J5sComments J5sEntity J5sRefSpec J5sAst Desc J5sWalk J5sLink J5sConvert J5sContract J5sSymbols J5sTypeNames J5sValid J5sCorr.
 From J5V.gen Require ImportsGen.
 From J5V.model Require RulesDecl RulesWrite.
 From Coq Require Import ZArith.
-From J5V.proofs Require Import J5sProofs J5sContractProofs J5sLinkProofs J5sResolveProofs J5sResolveCompleteProofs J5sServiceProofs J5sTotalProofs J5sSymbolProofs J5sCompileProofs J5sSubPkgProofs J5sDepsProofs J5sNameProofs J5sTypeNameProofs J5sWitnessProofs J5sStrictProofs StrcaseProofs J5sStrcaseProofs J5sInfraProofs J5sRefSpecProofs J5sRulesCompose J5sEntityProofs.
+From J5V.proofs Require Import J5sProofs J5sContractProofs J5sLinkProofs J5sResolveProofs J5sResolveCompleteProofs J5sServiceProofs J5sTotalProofs J5sSymbolProofs J5sCompileProofs J5sSubPkgProofs J5sDepsProofs J5sNameProofs J5sTypeNameProofs J5sWitnessProofs J5sStrictProofs StrcaseProofs J5sStrcaseProofs J5sInfraProofs J5sRefSpecProofs J5sRulesCompose J5sEntityProofs J5sCommentsProofs.
 Import ListNotations.
 Local Open Scope N_scope.
 
@@ -497,6 +497,20 @@ Example C02_entity_example :
   valid (c02_bundle [b "foo"; b "v1"] c02_foo) = true /\
   exists D, compile (c02_bundle [b "foo"; b "v1"] c02_foo) (b "foo.v1") = Ok D /\ length D = 3%nat.
 Proof. exact readme_entity_valid. Qed.
+
+(* ---- descriptions: the source locations (descriptor path + leading comment) the compiler
+   writes into the main file, model/J5sComments.v (main_locs: from the source and a table of
+   descriptions keyed by declared name path; emission order of j5convert's commentSet: the
+   message, then per property the inline type it defines and the property itself, then the
+   nested schemas; enums and enum values only where described, value path by NUMBER; the
+   description of a property with an inline type stays on the property).  Tied on every run:
+   for every compiled case the list equals the real SourceCodeInfo of every main file of the
+   package (J5sCorr.locs_check).  Here: the declaration the real compiler was probed with.
+   Not in SourceCodeInfo at all (observed): service and method descriptions. *)
+Theorem C02_source_locations_probe :
+  locs_eqb (main_locs to_camel probe_table probe_file) probe_real = true.
+Proof. exact probe_locations. Qed.
+Print Assumptions C02_source_locations_probe.
 
 (* ---- C02 (structure) x C12 / C04 (validation rules, list rules, annotations): family scha's
    writer model (model/RulesWrite.v write_prop: buildField / buildProperty with every rule arm,
